@@ -50,6 +50,9 @@ CHECKS = {
  "C20": dict(level="exploration", family="views", ref="6.17",
    technique="deterministic simulation: recorded states from simulated histories with arbitrary-byte names, duplicate groups and pre-populated pool directories; reference model (decoded content + harness file copies) vs parsed tool output",
    text="On recorded states reached by seeded histories, list, status (counters, per-stripe dump, named files), dup and pool are compared with a reference computed from the independently decoded content file and the harness copy of the file contents: exact file/link sets with names inverted through the tag escaping, exact duplicate partition, exact pool tree (one link per recorded entry, first disk wins, stale links and empty dirs gone, foreign files kept)."),
+ "C19": dict(level="exploration", family="decoy", ref="6.16",
+   technique="deterministic simulation: histories with decoys (same name/size/stamp, other bytes), honest copies, aborted syncs, import directories; reference hashes + independent parity oracle on every recorded block, fix bytes against the harness copy",
+   text="Decoys and honest copies appear next to fully or partially hashed recorded files, followed by sync variants (plain, pre-hash, --force-nocopy, partial, killed after the parity update): after every command the reference hash of every block recorded as synced must equal the recorded hash and the parity oracle must hold; a decoy taken for a copy must be reported and fail a complete sync; pre-hash must leave parity untouched. With a recorded file lost and decoys on other disks and in -i / --test-import-content directories, fix must produce the recorded bytes or report the file unrecoverable; check must write nothing."),
 }
 NA = [
  ("C02", "pure function of (nd, np, size, buffers, variant): no schedule, clock, fault, crash point or history for a simulator to own"),
